@@ -101,7 +101,8 @@ func drawCodec(rt *rapid.T, depth int) *codecSpec {
 		aesKeys++
 		c.key = []byte(strings.Repeat(string(rune('a'+aesKeys%20)), n))
 		if rapid.Bool().Draw(rt, "with-ttl") {
-			c.ttl = time.Duration(rapid.SampledFrom([]int{1, 5, 60, 3600}).Draw(rt, "ttl-s")) * time.Second
+			// from seconds to a "remember me" cookie of twenty years
+			c.ttl = time.Duration(rapid.SampledFrom([]int{1, 5, 60, 3600, 86400 * 30, 86400 * 365 * 20}).Draw(rt, "ttl-s")) * time.Second
 		}
 	case "fallback":
 		c.from = drawCodec(rt, depth-1)
@@ -166,7 +167,12 @@ type session struct {
 
 func c11prop(r *simkit.Run) {
 	rt := r.T
-	clock.Freeze(time.Unix(rapid.Int64Range(1_000_000_000, 2_000_000_000).Draw(rt, "epoch-s"), rapid.Int64Range(0, 999_999_999).Draw(rt, "epoch-ns")).UTC())
+	// wall clock anywhere from 2001 to 2106 (the 32-bit boundaries of Unix time in 2038 and 2106 lie inside)
+	epochS := rapid.Int64Range(1_000_000_000, 2_000_000_000).Draw(rt, "epoch-s")
+	if rapid.IntRange(0, 3).Draw(rt, "late-clock") == 0 {
+		epochS = rapid.Int64Range(2_000_000_000, 4_400_000_000).Draw(rt, "epoch-late-s")
+	}
+	clock.Freeze(time.Unix(epochS, rapid.Int64Range(0, 999_999_999).Draw(rt, "epoch-ns")).UTC())
 	defer clock.Unfreeze()
 	start := clock.Now().UTC()
 	now := func() time.Duration { return clock.Now().UTC().Sub(start) }
